@@ -277,6 +277,44 @@ func registerStd(e *Engine, simple func(string, func(*Run, []Value) Value)) {
 	}
 	in["sort.SliceStable"] = in["sort.Slice"]
 
+	// google.golang.org/protobuf: Marshal/Unmarshal are outside every claim; they
+	// are modelled by their contract Unmarshal(Marshal(m)) = m through a table
+	// of opaque handles (8 distinct concrete bytes per marshalled message).
+	simple("perun.network/go-perun/wire/protobuf.file_wire_protobuf_wire_proto_init", func(r *Run, a []Value) Value { return nil })
+	simple("google.golang.org/protobuf/proto.Marshal", func(r *Run, a []Value) Value {
+		m := a[0].(IfaceV)
+		if m.t == nil {
+			return TupleV{SliceV{}, IfaceV{}}
+		}
+		r.pbMsgs = append(r.pbMsgs, copyVal(r.load(m.v.(PtrV))))
+		h := uint64(len(r.pbMsgs))
+		bs := make([]*Term, 8)
+		for i := range bs {
+			bs[i] = r.ctx.BV(8, (0xA5A5A5A500000000|h)>>(8*uint(7-i)))
+		}
+		return TupleV{r.bytesToSlice(bs), IfaceV{}}
+	})
+	simple("google.golang.org/protobuf/proto.Unmarshal", func(r *Run, a []Value) Value {
+		bs := r.byteSliceTerms(a[0])
+		m := a[1].(IfaceV)
+		bad := func() Value {
+			en := r.eng.pkgs["errors"].Func("New")
+			return r.callSync(r.cur, &FuncV{fn: en}, []Value{&StrV{s: "proto: cannot parse invalid wire-format data"}})
+		}
+		if len(bs) != 8 || !allConst(bs) {
+			return bad()
+		}
+		var h uint64
+		for _, b := range bs {
+			h = h<<8 | b.CV
+		}
+		if h>>32 != 0xA5A5A5A5 || int(h&0xffffffff) == 0 || int(h&0xffffffff) > len(r.pbMsgs) {
+			return bad()
+		}
+		r.store(m.v.(PtrV), r.pbMsgs[int(h&0xffffffff)-1])
+		return IfaceV{}
+	})
+
 	// time
 	simple("time.Now", func(r *Run, a []Value) Value { return &TimeV{r.ctx.BV(64, uint64(r.now))} })
 	simple("time.Unix", func(r *Run, a []Value) Value {
